@@ -28,7 +28,9 @@ import (
 
 func lsRun(dir, backend string, shards, workers, ops int, seed uint64, mode string) string {
 	cfg := config.NewDefault()
-	metrics.Global = metrics.NewMetrics()
+	if !raceEnabled {
+		metrics.Global = metrics.NewMetrics()
+	}
 	limit := int64(2000)
 	cfg.Cache.MaxCacheSize.Overwrite(bytesize.ByteSize(limit))
 	ctx, cancel := context.WithCancel(context.Background())
